@@ -326,3 +326,8 @@ mod test {
         assert_eq!(vec![Boolean::from(false)], b.iter().collect::<Vec<_>>());
     }
 }
+
+#[cfg(kani)]
+mod verif_kani {
+    include!(concat!(env!("IPA_VERIF_DIR"), "/kani/boolean.rs"));
+}
